@@ -66,6 +66,24 @@ whole_of_r = z3.Function('whole_of_r', R, I)
 N_BALLOT_OBJS = z3.Int('n_ballot_objects')
 THE_E = z3.Int('the_election')             # the Election object being counted
 
+# saved copies of the candidates (E.rounds[n] = Candidates.copy() taken when round n+1 begins): each copy is an object
+# that is not a candidate of the election, carries its source's id and ballot order and the tally its source had then
+snap_iscopy = z3.Function('snap_iscopy', I, B)
+snap_n = z3.Function('snap_n', I, I)
+snap_src = z3.Function('snap_src', I, I)
+snap_copyof = z3.Function('snap_copyof', I, I, I)
+cand_of_cid = z3.Function('cand_of_cid', I, I)
+_snapvote = {}
+
+
+def snapvote_fn(ex):
+    sort = R if ex.instance == 'real' else I
+    key = 'real' if ex.instance == 'real' else 'int'
+    if key not in _snapvote:
+        _snapvote[key] = z3.Function('snap_vote_' + key, I, I, sort)
+    return _snapvote[key]
+
+
 GHOST_INT = ('nH', 'nE', 'nD', 'nW', 'nP', 'nlog')
 GHOST_STR = ('lasttag', 'lastmsg')
 
@@ -417,11 +435,52 @@ def install_election(ex):
             r = st.ghost.get('rule_ref')
             if r is not None:
                 return r
+        if kind == 'model:rounds':
+            return SRef('rounds', ref.t)
         return None
+
+    def pseudo_subscript(c, i, st, fr):
+        "E.rounds[n]: one saved copy per round begun so far (len(E.rounds) == E.round: A-rounds, SCAN-checked)"
+        if c.cname != 'rounds' or not isinstance(i, SInt):
+            return None
+        ex.col.assumed.add('E.rounds[n] is the copy of the candidates saved when round n+1 began (model; SCAN rounds-protocol)')
+        rnd = C.read_field(st, SRef(repo.resolve(ELEC), c.t), 'round').t
+        idx = z3.If(i.t >= 0, i.t, rnd + i.t)
+        return ex.split(z3.And(idx >= 0, idx < rnd), st, lambda s_: ex.ok(SRef('snap', z3.simplify(idx)), s_),
+                        lambda s_: ex.exc('IndexError', s_))
+    ex.hooks['pseudo_subscript'] = pseudo_subscript
+
+    def snapshot_abs(n, st):
+        from .l2 import mk_abs
+        election_facts(ex, st)
+        sv = snapvote_fn(ex)
+        cid = C.heap_array(st, CAND, 'cid', 'int')
+        order = C.heap_array(st, CAND, 'order', 'int')
+        vote = C.heap_array(st, CAND, 'vote', 'val')
+        mem = lambda t: z3.And(snap_iscopy(t), snap_n(t) == n)       # noqa
+        L = mk_abs(C, st, 'ref:' + CAND, mem, select_len(st, 'all'), base='snap', distinct=True, register=False)
+        a0 = st.ghost.get('alloc0', st.alloc)
+        L.facts.append(lambda t: z3.Implies(mem(t), z3.And(
+            inC(snap_src(t)), z3.Not(inC(t)), t >= 1, t < a0, snap_copyof(n, snap_src(t)) == t,
+            z3.Select(cid, t) == z3.Select(cid, snap_src(t)), z3.Select(order, t) == z3.Select(order, snap_src(t)),
+            z3.Select(vote, t) == sv(n, snap_src(t)))))
+        # every candidate of the election has its copy in every saved round; candidate ids are distinct (A-profile)
+        st.facts.append((CAND, lambda c: z3.Implies(inC(c), z3.And(mem(snap_copyof(n, c)), snap_src(snap_copyof(n, c)) == c,
+                                                                 cand_of_cid(z3.Select(cid, c)) == c))))
+        for f in list(L.facts):
+            st.facts.append((CAND, f))
+        return L
 
     def iter_abs(it, st, fr):
         if isinstance(it, SRef) and it.cname == CANDS:
             return mk_select(st, 'all', 'none', False)
+        if isinstance(it, SRef) and it.cname == 'snap':
+            return snapshot_abs(it.t, st)
+        if isinstance(it, SRef) and it.cname == 'rounds':
+            # the saved rounds themselves, oldest first: element i is the copy saved when round i+1 began
+            rnd = C.read_field(st, SRef(repo.resolve(ELEC), it.t), 'round').t
+            return SAbs('ref:snap', lambda t: z3.And(t >= 0, t < rnd), z3.If(rnd >= 0, rnd, 0), elem=lambda i: i, pos=lambda t: t,
+                        distinct=True, ordered=True, name='E.rounds')
         if isinstance(it, SRef) and it.cname.startswith('seq:'):
             ek = it.cname[4:]
             sid = it.t
